@@ -305,7 +305,7 @@ def pPrimaryExpression (self : Self) : P Val := do
     let co ← tokCoord offTok
     pure (mk .FuncCall (some co) [mk .ID (some co) [.str offTok.val],
       mk .ExprList (some co) [.list [typ, desig]]])
-  else parseError "Invalid expression" (← lexFileLoc)
+  else parseError "Invalid expression" (← hereLoc)
 
 /-- loop of `_parse_offsetof_member_designator` -/
 def pOffsetofLoop (self : Self) (node : Val) : P Val := do
@@ -367,7 +367,7 @@ def pDesignatorListLoop (self : Self) (acc : List Val) : P (List Val) := do
     else if (← accept "PERIOD").isSome then
       let i ← pIdentifierOrTypeid
       self (.designatorListLoop (acc ++ [i]))
-    else parseError "Invalid designator" (← lexFileLoc)
+    else parseError "Invalid designator" (← hereLoc)
   else pure acc
 
 end PycModel
